@@ -139,7 +139,8 @@ def search(seed, budget=6000, want_op=None):
             else:
                 d = p.step(op)
             if d:
-                if want_op is None or op == want_op:
+                if want_op is None or op == want_op or any(l.startswith(want_op) for l in p.log):
+                    # (a broken invariant may only show at a later operation of the history)
                     return d
                 break       # an unrelated disagreement: abandon this history
     return None
